@@ -64,16 +64,14 @@ func genC09(x *Ctx) *c09Scen {
 	sc.Trace = tp.Chance(300)
 	sc.Preempt = []int{300, 100, 500}[tp.G(3)]
 	sc.AddRoute = tp.Chance(250)
-	n := tp.Range(1, 4)
 	maxReq := 4
 	if x.Thorough() {
 		maxReq = 8
 	}
 	id := 0
-	for c := 0; c < n; c++ {
+	tp.Repeat(1, 4, 600, func(int) {
 		var rs []*c09Req
-		m := tp.Range(1, maxReq)
-		for i := 0; i < m; i++ {
+		tp.Repeat(1, maxReq, 600, func(int) {
 			id++
 			r := &c09Req{ID: id, Path: c09URLs[tp.G(len(c09URLs))]}
 			r.Origin = []string{"http://good.example", "http://good.example", "HTTP://Good.Example", "http://evil.example", ""}[tp.G(5)]
@@ -88,9 +86,9 @@ func genC09(x *Ctx) *c09Scen {
 				r.Method = []string{"GET", "POST", "DELETE", "PUT"}[tp.G(4)]
 			}
 			rs = append(rs, r)
-		}
+		})
 		sc.Clients = append(sc.Clients, rs)
-	}
+	})
 	return sc
 }
 
